@@ -3,7 +3,7 @@
 # Builds the harness with a Go overlay per mutation of /repo (nothing in /repo is touched), runs the quick tier,
 # pipes ops.txt through drv_exec and reports tie-disagreeing cases and oracle FAIL keys. Work dir: /tmp/exec-selftest (delete after use).
 import json, os, subprocess, sys
-NCORPUS = 105
+NCORPUS = 109
 MUTS = [
  ("M1-wrap-ignores-notify-flag", "/repo/pkg/core/interop/contract/call.go",
   "f&(callflag.All^callflag.ReadOnly) != 0 //", "f&callflag.WriteStates != 0 //"),
